@@ -15,6 +15,8 @@ import OV.Drivers.Loop
 * `C14 globr <expr> <k=v;k=@c;…|-> <cells c=v;…|-> <cells later c=v;…|->`  (the code as it is: constants are snapshotted)
                                                                      → `before=<csv> after=<csv> copy=<0|1>`
 * `C14 imports <sorted 0|1> <existing dom=ver;…|-> <iter dom[=ver],… |->` → `<dom=ver;…>`  (`~` stands for the empty domain)
+* `C14 header <graph imports dom=ver;…|-> <funcs dom:ver:std|…  (std `-` = none) |-> <opset_version|-> <ir_version|-> <latest> <opset=ir;…> <maxIr>`
+                                                                     → `<dom=ver;…> ir=<n>`   (`~` = empty domain)
 * `C14 castable <fn1 consts csv|-> <fn2 consts csv|-> <arg>`        → `castlike=<0|1> resets=<0|1>`
 -/
 namespace OV.Drivers.C14
@@ -225,6 +227,24 @@ def handle (args : List String) : String :=
     -- the model is the repaired code (sorted iteration); the flag is accepted for the protocol's sake only
     let r := updateOpsetImports (sorted == "1" || true) ex it
     ";".intercalate (r.map (fun p => s!"{if p.1 == "" then "~" else p.1}={p.2}"))
+  | ["header", gi, fs, okw, ikw, latest, table, maxIr] =>
+    let dn := fun (d : String) => if d == "~" then "" else d
+    let parseImps := fun (t : String) => (if t == "-" then [] else t.splitOn ";").filterMap (fun kv =>
+      match kv.splitOn "=" with
+      | [k, v] => v.toNat?.map (fun n => (dn k, n))
+      | _ => none)
+    let funcs : List SubFn := (if fs == "-" then [] else fs.splitOn "|").filterMap (fun t =>
+      match t.splitOn ":" with
+      | [d, v, st] => v.toNat?.map (fun n => (⟨dn d, n, st.toNat?⟩ : SubFn))
+      | _ => none)
+    let tbl : List (Nat × Nat) := (table.splitOn ";").filterMap (fun kv =>
+      match kv.splitOn "=" with
+      | [k, v] => match k.toNat?, v.toNat? with
+        | some k, some v => some (k, v)
+        | _, _ => none
+      | _ => none)
+    let r := modelHeader (parseImps gi) funcs okw.toNat? ikw.toNat? (latest.toNat?.getD 0) tbl (maxIr.toNat?.getD 0)
+    ";".intercalate (r.1.map (fun p => s!"{if p.1 == "" then "~" else p.1}={p.2}")) ++ s!" ir={r.2}"
   | ["castable", c1, c2, arg] =>
     let resets := OV.Gen.C14Stash.converterFacts.resetFields.contains "_castable"
     s!"castlike={b01 (insertsCastLike (castableAfter resets (csv c1) (csv c2)) arg)} resets={b01 resets}"
